@@ -805,6 +805,164 @@ class Storm:
             c.close()
         self.quiesce(srv, expect_users=[], expect_conns=0, what="query-atomic teardown")
 
+    # ---------------------------------------------------------------- W15 two commands that exclude each other
+    def w_mutual(self, srv, pairs, what):
+        """pairs of channel operators act against each other at the same moment - each KICKs the other, or each takes the
+        other's operator status away (MODE -o): whichever command the server executes first makes the second one
+        impossible (the kicked one is no member any more, the demoted one no operator), so exactly one of each pair
+        succeeds - in every serial order"""
+        self.rounds += 1
+        pfx = self.uid("m")
+        cs = open_many(srv, 1 + 2 * pairs, pfx, password=self.password)
+        chan = "#" + self.uid("duel")
+        f = cs[0]
+        f.send("JOIN " + chan)
+        f.ping("a")
+        for c in cs[1:]:
+            c.send("JOIN " + chan)
+        for c in cs:
+            c.ping("b")
+        for i in range(1, len(cs)):
+            f.send("MODE %s +o %s%d" % (chan, pfx, i))
+        f.ping("c")
+        for c in cs:
+            c.ping("d")
+        order = list(range(1, len(cs)))
+        self.r.shuffle(order)
+        datas = {}
+        for p_ in range(pairs):
+            a, b = 1 + 2 * p_, 2 + 2 * p_
+            if what == "kick":
+                datas[a] = ("KICK %s %s%d :duel\r\n" % (chan, pfx, b)).encode()
+                datas[b] = ("KICK %s %s%d :duel\r\n" % (chan, pfx, a)).encode()
+            else:
+                datas[a] = ("MODE %s -o %s%d\r\n" % (chan, pfx, b)).encode()
+                datas[b] = ("MODE %s -o %s%d\r\n" % (chan, pfx, a)).encode()
+        fire([cs[i] for i in order], [datas[i] for i in order])
+        for c in cs:
+            c.ping("e")
+        s_ = self.quiesce(srv, what="mutual %s" % what)
+        if s_ is None:
+            # no hook: ask
+            f.send("NAMES " + chan)
+            got = set(" ".join(m.params[-1] for m in f.read_until(lambda m: m.verb == "366", 10.0) if m.verb == "353").split())
+            members = {n.lstrip("~&@%+"): ("o" if n[0] in "~&@" else "") for n in got}
+        else:
+            members = s_["channels"].get(chan, {"users": {}})["users"]
+        ok = True
+        for p_ in range(pairs):
+            a, b = "%s%d" % (pfx, 1 + 2 * p_), "%s%d" % (pfx, 2 + 2 * p_)
+            if what == "kick":
+                left = [n for n in (a, b) if n in members]
+            else:
+                left = [n for n in (a, b) if "o" in members.get(n, "")]
+            self.events += 2
+            if len(left) != 1:
+                ok = False
+                self.bad("storm:mutual-" + what, "%s and %s %s at the same moment on %s: %s - in every serial order exactly "
+                         "one of the two commands succeeds" % (a, b, "KICKed each other" if what == "kick" else
+                                                               "sent MODE -o against each other", chan,
+                                                               ("both are gone" if what == "kick" else "both lost their status")
+                                                               if not left else "both are still there"))
+                break
+            self.winners.add(("mutual", what, left[0] == a))
+        self.classes.add(("mutual", what, pairs, ok))
+        for c in cs:
+            c.close()
+        self.quiesce(srv, expect_users=[], expect_conns=0, what="mutual teardown")
+
+    # ---------------------------------------------------------------- W14 every query against every kind of writer
+    def w_readers_writers(self, srv, idle, rounds):
+        """readers repeat every read-only query (WHO / WHOIS / NAMES / LIST / LUSERS / ISON / USERHOST / WHOWAS / MODE and
+        TOPIC queries) over a population with invisible users, operators, away users and a secret channel, while writers
+        pipeline state changes (AWAY, user MODE, JOIN/PART, NICK, TOPIC, channel MODE): every burst is answered up to its
+        PING ("the server keeps answering every live connection"); nothing the queries do may wait for itself"""
+        import threading
+        self.rounds += 1
+        pfx = self.uid("q")
+        pop = open_many(srv, idle, pfx + "i", password=self.password)
+        room = "#" + self.uid("room")
+        for i, c in enumerate(pop):
+            c.send("JOIN " + room)
+            if i % 2 == 0:
+                c.send("MODE %si%d +i" % (pfx, i))
+            if i % 5 == 1:
+                c.send("AWAY :idle one")
+            if i % 7 == 2:
+                c.send("OPER root rootpw")
+        pop[0].send("JOIN #%shid" % pfx)
+        pop[0].send("MODE #%shid +s" % pfx)
+        for c in pop:
+            c.ping("s")
+        readers = open_many(srv, 3, pfx + "r", password=self.password)
+        writers = open_many(srv, 4, pfx + "w", password=self.password)
+        readers[0].send("JOIN " + room)
+        readers[0].ping("s")
+        for c in readers + writers:
+            c.sock.settimeout(60.0)
+        queries = ["WHO *", "WHO " + room, "WHO %si*" % pfx, "WHOIS %si0" % pfx, "WHOIS %si*" % pfx, "NAMES", "NAMES " + room,
+                   "LIST", "LUSERS", "ISON %si0 %si1 %sw0" % (pfx, pfx, pfx), "USERHOST %si0 %si2" % (pfx, pfx),
+                   "WHOWAS %sw0x" % pfx, "MODE " + room, "TOPIC " + room, "MODE %s b" % room, "WHO %si0" % pfx,
+                   "WHOIS %si0,%si1,%si2" % (pfx, pfx, pfx), "STATS u", "TIME", "MOTD"]
+        fails = []
+        done = {"r": 0, "w": 0}
+
+        def reader(k, c):
+            try:
+                for rnd in range(rounds):
+                    qs = [queries[(k * 7 + rnd + j) % len(queries)] for j in range(12)]
+                    c.send_raw(("\r\n".join(qs) + "\r\nPING rd%d\r\n" % rnd).encode())
+                    c.read_until(lambda m: m.verb == "PONG" and m.params[-1:] == ["rd%d" % rnd], 25.0)
+                    done["r"] += 12
+            except (wire.Closed, wire.Timeout, OSError) as ex:
+                fails.append(("reader %d" % k, qs, repr(ex)))
+
+        def writer(k, c):
+            me = "%sw%d" % (pfx, k)
+            try:
+                for rnd in range(rounds):
+                    kind = (k + rnd) % 4
+                    if kind == 0:
+                        ws = ["AWAY :gone %d" % rnd, "AWAY"] * 6
+                    elif kind == 1:
+                        ws = ["MODE %s +i" % me, "MODE %s -i" % me, "MODE %s +w" % me, "MODE %s -w" % me] * 3
+                    elif kind == 2:
+                        ws = ["JOIN " + room, "TOPIC %s :t%d" % (room, rnd), "PART " + room] * 4
+                    else:
+                        ws = ["NICK %sx" % me, "NICK " + me] * 5
+                    c.send_raw(("\r\n".join(ws) + "\r\nPING wr%d\r\n" % rnd).encode())
+                    c.read_until(lambda m: m.verb == "PONG" and m.params[-1:] == ["wr%d" % rnd], 25.0)
+                    done["w"] += len(ws)
+            except (wire.Closed, wire.Timeout, OSError) as ex:
+                fails.append(("writer %d" % k, ws, repr(ex)))
+        ths = [threading.Thread(target=reader, args=(k, c), daemon=True) for k, c in enumerate(readers)]
+        ths += [threading.Thread(target=writer, args=(k, c), daemon=True) for k, c in enumerate(writers)]
+        for t in ths:
+            t.start()
+        for t in ths:
+            t.join(rounds * 26.0 + 10)
+        self.events += done["r"] + done["w"]
+        self.classes.add(("readers-writers", idle, not fails))
+        if fails:
+            state = sut.diagnose(srv)
+            who, burst, ex = fails[0]
+            if state in ("hung", "dead"):
+                self.bad("storm:server-hung" if state == "hung" else "storm:server-stopped",
+                         "queries against concurrent writers: %s got no answer to a burst (%s ...; %s) and the server answers "
+                         "nobody any more (%d queries and %d changes had been answered before)"
+                         % (who, burst[:3], ex, done["r"], done["w"]))
+            elif state == "responsive":
+                self.bad("storm:connection-stalled", "queries against concurrent writers: %s got no answer to a burst (%s ...; "
+                         "%s) while a fresh connection is served" % (who, burst[:3], ex))
+            else:
+                raise wire.Timeout("readers/writers: %s %s" % (who, ex))
+            for c in pop + readers + writers:
+                c.close()
+            return
+        for c in pop + readers + writers:
+            c.close()
+        self.quiesce(srv, expect_users=[], expect_conns=0, what="readers-writers teardown")
+
     # ---------------------------------------------------------------- W10 a backlogged receiver still gets answers
     def w_backlog(self, srv, k, n):
         """k senders pipeline n messages each to one receiver that reads nothing (some 10 MB pile up in the kernel buffers
@@ -1145,7 +1303,7 @@ def worker(args):
             try:
                 for _ in range(rounds):
                     kind = r.choice(["claim", "claim", "claim", "rename", "firstjoin", "order", "limit", "fifo", "churn",
-                                     "flood", "stall", "quitflood", "settings"] if only is None else only)
+                                     "flood", "stall", "quitflood", "settings", "mutual"] if only is None else only)
                     if kind == "claim":
                         st.w_claim(srv, r.choice([4, 8, 16]), r.choice(["nick-then-user", "user-then-nick", "one-segment"]))
                     elif kind == "rename":
@@ -1160,6 +1318,10 @@ def worker(args):
                         st.w_order_full(srv, r.choice([3, 5, 12]), r.choice([30, 120]) if quick else r.choice([80, 400]))
                     elif kind == "settings":
                         st.w_settings(srv, r.choice([4, 8, 12]), r.choice(["topic", "topic", "limit", "key"]))
+                    elif kind == "mutual":
+                        st.w_mutual(srv, r.choice([1, 3, 6]), r.choice(["kick", "kick", "deop"]))
+                    elif kind == "readers":
+                        st.w_readers_writers(srv, r.choice([12, 30, 40]), 40 if quick else 150)
                     elif kind == "idle":
                         st.w_idle(srv)
                     elif kind == "queries":
